@@ -124,9 +124,34 @@ KIND_OF_TYPE = {"datetime.datetime": (sp.K_DATETIME,), "datetime.date": (sp.K_DA
                 "datetime.timedelta": (sp.K_TIMEDELTA,), "decimal.Decimal": (sp.K_DECIMAL,)}
 
 
+def type_name_of(t):
+    """type(x).__name__ for a value of V."""
+    kinds = sp.ite(*[(V.kind(t) == k, sv(n.split(".")[-1])) for k, n in sp.KIND_NAMES.items()], sv("object"))
+    return sp.ite((V.is_DC(t), V.cls(t)), (V.is_Non(t), sv("NoneType")), (V.is_Bool(t), sv("bool")), (V.is_Int(t), sv("int")), (V.is_Float(t), sv("float")),
+                  (V.is_Str(t), sv("str")), (V.is_Bytes(t), sv("bytes")), (V.is_BytesIO(t), sv("BytesIO")), (V.is_List(t), sv("list")),
+                  (V.is_Tuple(t), sv("tuple")), (V.is_Set(t), sv("set")), (V.is_Dict(t), sv("dict")), kinds)
+
+
+def exact_type_term(t, name):
+    """Bool term for `type(<PV t>) is <class name>` or None when the class is not modelled."""
+    if name in KIND_OF_TYPE:
+        return z3.And(V.is_Other(t), V.kind(t) == KIND_OF_TYPE[name][0])
+    n = name.split(".")[-1]
+    table = {"BytesIO": V.is_BytesIO(t), "dict": V.is_Dict(t), "list": V.is_List(t), "tuple": V.is_Tuple(t), "set": V.is_Set(t), "str": V.is_Str(t),
+             "bool": V.is_Bool(t), "int": V.is_Int(t), "float": V.is_Float(t), "NoneType": V.is_Non(t), "object": F, "type": F, "frozenset": F}
+    return table.get(n)      # bytes / bytearray share one kind in V: not decidable exactly -> None
+
+
+NUMBER_TOWER = {"numbers.Number": lambda t: z3.Or(V.is_Int(t), V.is_Float(t), V.is_Bool(t), z3.And(V.is_Other(t), V.kind(t) == sp.K_DECIMAL)),
+                "numbers.Real": lambda t: z3.Or(V.is_Int(t), V.is_Float(t), V.is_Bool(t)), "numbers.Rational": lambda t: z3.Or(V.is_Int(t), V.is_Bool(t)),
+                "numbers.Integral": lambda t: z3.Or(V.is_Int(t), V.is_Bool(t))}
+
+
 def isinstance_term(t, name):
     """Bool term for isinstance(<PV t>, <class name>) or None when the class is not modelled."""
     n = name.split(".")[-1] if name not in KIND_OF_TYPE else name
+    if name in NUMBER_TOWER:
+        return NUMBER_TOWER[name](t)
     if name in KIND_OF_TYPE:
         return z3.And(V.is_Other(t), z3.Or([V.kind(t) == k for k in KIND_OF_TYPE[name]]))
     table = {"BytesIO": V.is_BytesIO(t), "bytes": V.is_Bytes(t), "bytearray": V.is_Bytes(t),
@@ -194,7 +219,48 @@ def marker(kind):
     return f(z3.IntVal(next(_mark_ids)))
 
 
+STR_TO_STR = {"zfill", "rjust", "ljust", "center", "expandtabs", "swapcase", "title", "capitalize", "casefold", "removeprefix", "removesuffix",
+              "translate", "format_map", "lower", "upper", "strip", "lstrip", "rstrip", "replace", "format", "join"}
+STR_TO_BOOL = {"isnumeric", "isdecimal", "isidentifier", "isascii", "istitle", "isprintable", "isdigit", "isalpha", "isalnum", "isspace", "isupper", "islower",
+               "startswith", "endswith"}
+STR_TO_INT = {"count", "index", "rindex", "find", "rfind"}
+TEMPORAL_CTORS = {"datetime.datetime": sp.K_DATETIME, "datetime.date": sp.K_DATE, "datetime.time": sp.K_TIME, "datetime.timedelta": sp.K_TIMEDELTA,
+                  "decimal.Decimal": sp.K_DECIMAL}
+
+
 class SerExecutor(ETreeMixin, Executor):
+    def as_bin(self, st, v):
+        """Bin term of a bytes-like value in either representation (a `bytes` object produced by a library model, or a PV of
+        kind Bytes), else None."""
+        if isinstance(v, PTok) and v.what == "bin":
+            return v.a
+        if isinstance(v, PV) and z3.is_true(sp.norm(V.is_Bytes(v.t))):
+            return sp.norm(V.bp(v.t))
+        return None
+
+    # results whose KIND is fixed by the language even when the value is not modelled: an opaque value of that kind
+    def b_format(self, st, args, kwargs, node):
+        self.exc_any(st.fork(), f"{self.loc(node)} format()")
+        return [(st, VStr(z3.String(fresh_name("format"))))]
+
+    def b_repr(self, st, args, kwargs, node):
+        return [(st, VStr(z3.String(fresh_name("repr"))))]
+
+    b_hex = b_oct = b_bin = b_ascii = b_repr
+
+    def b_round(self, st, args, kwargs, node):
+        if args and isinstance(args[0], (VInt, VReal, VBool)):
+            if len(args) == 1 or isinstance(args[1], VNoneT):
+                return [(st, VInt(z3.Int(fresh_name("round"))))]
+            return [(st, VReal(z3.Real(fresh_name("round"))))]
+        return self.havoc_call(st, "round", args, node)
+
+    def b_divmod(self, st, args, kwargs, node):
+        if len(args) == 2 and all(isinstance(a, (VInt, VBool)) for a in args):
+            s2 = self.fork_raise(st, ops.eq_term(args[1], VInt(0)), "ZeroDivisionError")
+            return [] if s2 is None else [(s2, VTuple([VInt(z3.Int(fresh_name("div"))), VInt(z3.Int(fresh_name("mod")))]))]
+        return self.havoc_call(st, "divmod", args, node)
+
     # ------------------------------------------------ over-approximation marks --
     # Every over-approximated continuation (EXC-ANY raise, unknown result of an unmodelled call, a loop cut without
     # invariant, an abstracted expression, a merged state) assumes a fresh Bool named c05!overapprox...: proofs are
@@ -376,7 +442,9 @@ class SerExecutor(ETreeMixin, Executor):
                     continue
                 r = isinstance_term(v.t, n)
                 if r is None:
-                    self.unsupported(node, f"isinstance(value, {n}) is not modelled")
+                    # a class this pack knows nothing about: an opaque answer on an over-approximated path
+                    self.mark(st)
+                    r = z3.Bool(fresh_name("isinstance_" + n.split(".")[-1]))
                 terms.append(r)
             return [(st, VBool(sp.norm(z3.Or(terms + [F]))))]
         return super().b_isinstance(st, args, kwargs, node)
@@ -386,7 +454,7 @@ class SerExecutor(ETreeMixin, Executor):
         if isinstance(v, VNoneT):
             return [(st, VType("NoneType"))]
         if isinstance(v, PV):
-            return [(st, PTok("cls", sp.norm(sp.ite((V.is_DC(v.t), V.cls(v.t)), sv("<builtin>")))))]
+            return [(st, PTok("cls", sp.norm(type_name_of(v.t)), v.t))]       # b = the instance: exact-type tests
         return self.havoc_call(st, "type", args, node)
 
     def to_str(self, st, v, formatted=False):
@@ -412,14 +480,33 @@ class SerExecutor(ETreeMixin, Executor):
             r = self.b_str(st, args[0], node)
             if r is not None:
                 return [(st, r)]
+        if name == "str" and len(args) >= 1 and isinstance(args[0], PTok) and args[0].what == "b64":      # str(b64encode(..), "ascii")
+            return [(st, VStr(sp.B64(args[0].a)))]
+        if name in ("bytes", "memoryview", "bytearray") and len(args) == 1 and self.as_bin(st, args[0]) is not None:
+            return [(st, PTok("bin", self.as_bin(st, args[0])))]
         if name == "bytes" and len(args) == 1 and isinstance(args[0], PV):
             ok = self.fork_raise(st, z3.Not(V.is_Bytes(args[0].t)), "TypeError")
             return [] if ok is None else [(ok, PTok("bin", sp.norm(V.bp(args[0].t))))]
+        if name in TEMPORAL_CTORS:
+            # datetime / date / time / timedelta / Decimal objects: values of a foreign kind (ValueError etc. for bad arguments)
+            self.exc_any(st.fork(), f"{self.loc(node)} {name}()")
+            return [(st, PV(V.Other(z3.IntVal(TEMPORAL_CTORS[name]))))]
         if name == "dict" and len(args) == 1 and isinstance(args[0], PV):
             ok = self.fork_raise(st, z3.Not(V.is_Dict(args[0].t)), "TypeError")
             return [] if ok is None else [(ok, PV(args[0].t, fresh=True))]
         if name == "bool" and args and isinstance(args[0], PV):
             return [(st, self.truth(st, args[0]))]
+        if name == "float" and len(args) == 1 and isinstance(args[0], PV):
+            tt = args[0].t
+            s2 = self.fork_raise(st, sp.norm(z3.Not(z3.Or(V.is_Int(tt), V.is_Bool(tt), V.is_Float(tt), V.is_Str(tt)))), "TypeError")
+            if s2 is None:
+                return []
+            if self.feasible(s2.pc, V.is_Str(tt)):
+                self.raise_in(s2.fork().assume(V.is_Str(tt)), self.mk_exc("ValueError"))
+            r = z3.Real(fresh_name("float_of"))
+            s2.assume(z3.Implies(V.is_Float(tt), r == V.r(tt)))
+            s2.assume(z3.Implies(V.is_Int(tt), r == z3.ToReal(V.i(tt))))
+            return [(s2, PV(V.Float(r)))]
         if name == "float" and len(args) == 1 and isinstance(args[0], VStr):
             # float(text): ValueError for text that is not a number, else some float (finite or not: PY-FLOAT-REAL covers finite only)
             self.raise_in(st.fork(), self.mk_exc("ValueError"))
@@ -511,6 +598,10 @@ class SerExecutor(ETreeMixin, Executor):
                 return F
         if isinstance(a, PTok) and a.what == "cls" and isinstance(b, PTok) and b.what == "cls":
             return a.a == b.a
+        if isinstance(a, PTok) and a.what == "cls" and a.b is not None and n is not None:       # type(x) is <class>
+            r = exact_type_term(a.b, n)
+            if r is not None:
+                return r
         return None
 
     def _type_identity(self, a, b):
@@ -538,6 +629,9 @@ class SerExecutor(ETreeMixin, Executor):
                     return []
                 r = sp.ite((V.is_Dict(tt), sp.HASKEY(V.ents(tt), item.t)), z3.Bool(fresh_name("in")))
                 return [(s2, VBool(sp.norm(r)))]
+        if isinstance(container, PTok) and container.what == "attrib" and isinstance(item, VStr) and item.const() is not None:
+            from contracts.etree_model import HAS_ATTR
+            return [(st, VBool(HAS_ATTR(container.a.t, item.t)))]
         if isinstance(container, PTok) and container.what == "registry":
             if isinstance(item, VStr):
                 return [(st, VBool(sp.REG(item.t)))]
@@ -553,8 +647,10 @@ class SerExecutor(ETreeMixin, Executor):
 
     # ------------------------------------------------------------ attribute --
     def get_attr(self, st, base, attr, node):
-        if isinstance(base, PTok) and base.what == "cls" and attr == "__name__":
+        if isinstance(base, PTok) and base.what == "cls" and attr in ("__name__", "__qualname__"):
             return [(st, VStr(base.a))]
+        if isinstance(base, PV) and attr == "__class__":
+            return self.b_type(st, [base], {}, node)
         if isinstance(base, PTok) and base.what == "field" and attr == "name" and base.b is None:
             return [(st, VStr(base.a))]
         if isinstance(base, PH) and attr == "__name__":
@@ -576,6 +672,26 @@ class SerExecutor(ETreeMixin, Executor):
                 return [(st, PH(sp.FH(obj.a, args[0].t)))]
             if obj.what == "b64" and name == "decode":
                 return [(st, VStr(sp.B64(obj.a)))]
+            if obj.what == "registry" and name == "get" and args:
+                k = args[0]
+                kt = k.t if isinstance(k, VStr) else (sp.norm(V.s(k.t)) if isinstance(k, PV) else None)
+                isstr = T if isinstance(k, VStr) else (sp.norm(V.is_Str(k.t)) if isinstance(k, PV) else None)
+                if kt is not None:
+                    if isinstance(k, PV):
+                        s0 = self.fork_raise(st, sp.norm(z3.Or(V.is_List(k.t), V.is_Dict(k.t), V.is_Set(k.t))), "TypeError")
+                        if s0 is None:
+                            return []
+                        st = s0
+                    hit = sp.norm(z3.And(isstr, sp.REG(kt)))
+                    outs = []
+                    if self.feasible(st.pc, hit):
+                        outs.append((st.fork().assume(hit), PTok("cls", kt)))
+                    if self.feasible(st.pc, z3.Not(hit)):
+                        outs.append((st.assume(z3.Not(hit)), args[1] if len(args) > 1 else NONE))
+                    return outs
+            if obj.what == "attrib" and name == "get":
+                from contracts.etree_model import m_get
+                return m_get(self, st, obj.a, args, kwargs, node)
             return self.havoc_call(st, f"{obj.what}.{name}", args, node)
         if isinstance(obj, VRef) and st.obj(obj.ref).kind in ("pvkv", "pvmap"):
             return self.havoc_call(st, f"dict.{name}", [obj] + list(args), node)
@@ -584,7 +700,18 @@ class SerExecutor(ETreeMixin, Executor):
     def str_method(self, st, s, name, args, kwargs, node):
         if name == "encode":
             return [(st, PTok("enc", s.t))]
-        return super().str_method(st, s, name, args, kwargs, node)
+        outs = super().str_method(st, s, name, args, kwargs, node)
+        fixed = []
+        for (s2, v) in outs:            # the result kind of a str method is fixed even when its value is not modelled
+            if isinstance(v, VUnk):
+                if name in STR_TO_STR:
+                    v = VStr(z3.String(fresh_name(name)))
+                elif name in STR_TO_BOOL:
+                    v = VBool(z3.Bool(fresh_name(name)))
+                elif name in STR_TO_INT:
+                    v = VInt(z3.Int(fresh_name(name)))
+            fixed.append((s2, v))
+        return fixed
 
     def pv_method(self, st, obj, name, args, kwargs, node):
         tt = obj.t
@@ -606,6 +733,18 @@ class SerExecutor(ETreeMixin, Executor):
         if name == "encode":
             s2 = self.fork_raise(st, sp.norm(z3.Not(V.is_Str(tt))), "AttributeError")
             return [] if s2 is None else [(s2, PTok("enc", sp.norm(V.s(tt))))]
+        if name in ("strftime", "ctime", "__str__", "__format__") :
+            s2 = self.fork_raise(st, sp.norm(z3.Not(V.is_Other(tt))), "AttributeError")
+            self.exc_any(st.fork(), f"{self.loc(node)} .{name}()")
+            return [] if s2 is None else [(s2, VStr(z3.String(fresh_name(name))))]
+        if name == "is_integer" and not args:
+            s2 = self.fork_raise(st, sp.norm(z3.Not(z3.Or(V.is_Float(tt), V.is_Int(tt)))), "AttributeError")
+            return [] if s2 is None else [(s2, VBool(sp.norm(z3.If(V.is_Float(tt), z3.IsInt(V.r(tt)), T))))]
+        if name == "total_seconds":
+            s2 = self.fork_raise(st, sp.norm(z3.Not(z3.And(V.is_Other(tt), V.kind(tt) == sp.K_TIMEDELTA))), "AttributeError")
+            return [] if s2 is None else [(s2, VReal(z3.Real(fresh_name("seconds"))))]
+        if z3.is_true(sp.norm(V.is_Str(tt))):                    # a str held as PV: its methods are str methods
+            return self.str_method(st, VStr(sp.norm(V.s(tt))), name, args, kwargs, node)
         if name == "iterate_units" and not args:
             # ASSUMED: the units of an extraction result form a finite sequence of (encodable) dataclass instances
             self.exc_any(st.fork(), f"{self.loc(node)} iterate_units")
@@ -666,6 +805,17 @@ class SerExecutor(ETreeMixin, Executor):
                 if self.feasible(s2.pc, H.is_HDict(h)):
                     return [(s2.assume(H.is_HDict(h)), PH(sp.norm(H.dval(h))))]
                 return [(s2, VType("NoneType"))]
+        if isinstance(base, PTok) and base.what == "hints" and isinstance(idx, VStr):
+            return [(st, PH(sp.FH(base.a, idx.t)))]
+        if isinstance(base, PTok) and base.what == "attrib" and isinstance(idx, VStr):
+            from contracts.etree_model import m_get
+            outs = []
+            for (s2, v) in m_get(self, st, base.a, [idx], {}, node):
+                if isinstance(v, VNoneT):
+                    self.raise_in(s2, self.mk_exc("KeyError"))
+                else:
+                    outs.append((s2, v))
+            return outs
         if isinstance(base, PTok) and base.what == "registry":
             if isinstance(idx, PV):
                 idx = VStr(sp.norm(V.s(idx.t)))
@@ -934,9 +1084,49 @@ class SerExecutor(ETreeMixin, Executor):
         r = self._comp_generic(n, st, "set")
         return r if r is not None else super().e_SetComp(n, st)
 
+    def _stores_loop(self, comp, acc_name):
+        """`for <targets> in <iter>: acc[<key>] = <value>` -- what merging the dict comprehension into acc does (PY-ORDER)."""
+        if len(comp.generators) != 1 or comp.generators[0].ifs:
+            return None
+        g = comp.generators[0]
+        tgt = ast.Subscript(value=ast.Name(id=acc_name, ctx=ast.Load()), slice=comp.key, ctx=ast.Store())
+        loop = ast.For(target=g.target, iter=g.iter, body=[ast.Assign(targets=[tgt], value=comp.value)], orelse=[])
+        ast.copy_location(loop, comp)
+        ast.fix_missing_locations(loop)
+        return loop
+
     def e_Dict(self, n, st):
-        outs = super().e_Dict(n, st)
-        return outs
+        if any(k is None for k in n.keys) and all(k is not None or isinstance(v, ast.DictComp) for k, v in zip(n.keys, n.values)):
+            # {k0: v0, ..., **{K: E for x in C}, ...}: the display filled left to right
+            tmp = f"acc!{n.lineno}!{n.col_offset}"
+            base = ast.Dict(keys=[], values=[])
+            ast.copy_location(base, n)
+            states = [(s2, v) for (s2, v) in super().e_Dict(base, st)]
+            for k, v in zip(n.keys, n.values):
+                nxt = []
+                for (cur, ref) in states:
+                    cur.frame.env[tmp] = ref
+                    if k is None:
+                        loop = self._stores_loop(v, tmp)
+                        if loop is None:
+                            self.unsupported(n, "dict ** unpacking of a filtered / nested comprehension")
+                        for o in self.exec_stmt(loop, cur):
+                            if o.kind == "fall":
+                                nxt.append((o.st, o.st.frame.env[tmp]))
+                            elif o.kind == "raise":
+                                self.raise_in(o.st, o.val)
+                            else:
+                                self.unsupported(n, "control flow escaping a dict display")
+                    else:
+                        for (s2, kv) in self.ev(k, cur):
+                            for (s3, vv) in self.ev(v, s2):
+                                for s4 in self.store_index(s3, s3.frame.env[tmp], kv, vv, n):
+                                    nxt.append((s4, s4.frame.env[tmp]))
+                states = nxt
+            for (cur, _r) in states:
+                cur.frame.env.pop(tmp, None)
+            return states
+        return super().e_Dict(n, st)
 
     # ---------------------------------------------------------------- loops --
     # -------------------------------------------------- loop == comprehension --
@@ -1179,6 +1369,19 @@ class SerExecutor(ETreeMixin, Executor):
 
     # ----------------------------------------------------------------- calls --
     def e_Call(self, n, st):
+        if isinstance(n.func, ast.Attribute) and n.func.attr == "update" and isinstance(n.func.value, ast.Name) and len(n.args) == 1 \
+                and isinstance(n.args[0], ast.DictComp) and not n.keywords and isinstance(st.lookup(n.func.value.id), VRef):
+            loop = self._stores_loop(n.args[0], n.func.value.id)          # acc.update({K: E for x in C}) == the loop of item stores
+            if loop is not None:
+                outs = []
+                for o in self.exec_stmt(loop, st):
+                    if o.kind == "fall":
+                        outs.append((o.st, NONE))
+                    elif o.kind == "raise":
+                        self.raise_in(o.st, o.val)
+                    else:
+                        self.unsupported(n, "control flow escaping dict.update")
+                return outs
         if any(k.arg is None for k in n.keywords) and not n.args and len(n.keywords) == 1:
             outs = []
             for (s, f) in self.ev(n.func, st):
